@@ -250,3 +250,8 @@ Ltac msimpl :=
      py_add py_sub py_mul py_neg py_floordiv py_mod py_shl py_shr py_band py_bor py_bxor
      py_lt py_le py_gt py_ge py_eq py_ne py_eqb py_not py_and py_or py_bool py_int py_ifexp
      as_int truthy].
+
+Ltac proj_simpl :=
+  cbn [regs pc dc f_s f_z f_v f_c f_cb mem halted ers op_count warned_ovf warned_swi warned_rti
+       warning_count swarning_count location input_buffer input_pos out cfg
+       data_start warn_return_on init throttle mlen cells].
